@@ -363,6 +363,15 @@ func main() {
 			func() { w.campaign(2); w.tso(2); w.updateTSO(2); w.rebase(2) },
 		}
 	}
+	// a member that has never campaigned (it holds no lease at all) attempts guarded writes
+	// while the record exists, while nobody holds it, and after somebody else took it
+	bystander := func(w *world) ([]string, []func()) {
+		return []string{"pd1", "pd3", "pd2"}, []func(){
+			func() { w.priority(1); w.resign(1) },
+			func() { w.priority(3); w.updateTSO(3); w.priority(3) },
+			func() { w.campaign(2); w.priority(2) },
+		}
+	}
 	delKey := func(w *world) ([]string, []func()) {
 		return []string{"pd1", "pd1-req", "pd2"}, []func(){
 			func() { w.deleteKey(1); w.priority(1) },
@@ -387,11 +396,13 @@ func main() {
 			scenario("expiry+reset", 2, 2, "quick", expiryReset),
 			scenario("resign", 2, 2, "quick", resign),
 			scenario("delete-leader-key", 2, 2, "quick", delKey),
+			scenario("resign+bystander", 3, 2, "quick", bystander),
 			scenario("three-contenders", 3, 1, "quick", three),
 			scenario("expiry@3", 2, 3, "thorough", expiry),
 			scenario("expiry+reset@3", 2, 3, "thorough", expiryReset),
 			scenario("resign@3", 2, 3, "thorough", resign),
 			scenario("delete-leader-key@3", 2, 3, "thorough", delKey),
+			scenario("resign+bystander@3", 3, 3, "thorough", bystander),
 			scenario("three-contenders@2", 3, 2, "thorough", three),
 		},
 		Rule: "all schedules (preemption bound) of member scripts (campaign, TSO request, AllocID / IsBootstrapped handler, time-window save, id rebase, member priority write, resign, delete leader key) of 2-3 real Servers and a lease-expiry event; outcome = which requests were served by whom",
